@@ -446,8 +446,8 @@ impl ToOrdinal {
             };
     
             // check to see if the number is too big or is not an integer or has non-digits
-            if number.len() > 3*numbers_large.len() {
-                return Some(number);
+            if number.is_empty() || number.len() > 3*numbers_large.len() {
+                return Some(number);        // nothing but block separators (e.g., <mn>,</mn>), or too big
             }
             if NO_DIGIT.is_match(&number) {
                 // this shouldn't have been part of an mn, so likely an error. Log a warning
